@@ -6,7 +6,7 @@ import json, os, re, subprocess, sys
 os.chdir("/verif")
 tier = sys.argv[1] if len(sys.argv) > 1 and sys.argv[1] in ("quick", "thorough") else "quick"
 only = [a for a in sys.argv[1:] if a not in ("quick", "thorough")]
-ALSO = {"C01": ["C08"], "C03": ["C08"], "C05": ["C06"], "C12": ["C08"], "C09": ["C18"], "C14": ["C16"], "C16": ["C14"], "C02": [], "C07": [], "C11": []}
+ALSO = {"C04": ["C17"], "C01": ["C08"], "C03": ["C08"], "C05": ["C06"], "C12": ["C08"], "C09": ["C18"], "C14": ["C16"], "C16": ["C14"], "C02": [], "C07": [], "C11": []}
 rows = []
 # evidence and replay files written while a seeded change is applied describe the changed tree: put them back at the end
 import shutil, tempfile, glob, atexit
